@@ -64,16 +64,17 @@ SPEC = dict(
 
 META = dict(
     technique="Lean 4 refinement theorems (index tree + bit masks + scope trie + trigger cache = reference matcher) and differential correspondence through the public engine API",
-    level_text=("Proof over the executable model of engine/rule.go, util.go, processor.go, for all rule lists, events, histories: "
-                "the kind tree (incl. spilling of full state leaves) returns a rule once per matching kind pattern iff its state pattern "
-                "admits the event; ProcessEvent executes a duplicate-free sequence whose name set is exactly Spec.fires; IsTriggering "
-                "over-approximates Match and depends on the kind only, hence the cache is sound after every history and a firing event is "
-                "never skipped; the scope trie answers with the flag of the longest defined prefix. PARTIAL: the two exactness theorems "
-                "(match_eq_spec_partial, processEvent_exact_partial) assume the leaf law (a state leaf with <=63 rules returns exactly its "
-                "rules whose state pattern admits the event); proved about the leaf: per-bit meaning of match/unmatch, termination of the "
-                "collection loop with bit 63 clear, divergence with bit 63 set; NOT proved: that addRule keeps the masks in step with the "
-                "rules (tested on every case by the driver's model-vs-spec cross-check). Model tied to the real Processor / RuleIndex by "
-                "exhaustive small universes and random large rule sets (up to 200 state rules per kind), workers 1..4."),
+    level_text=("Proof at full strength over the executable model of engine/rule.go, util.go, processor.go, for all rule lists, events, "
+                "histories: the index (kind tree with spilling of full state leaves + BitVec-64 key matchers incl. deep values, regex loop, "
+                "early exit, collection loop) returns a rule once per matching kind pattern iff its state pattern admits the event "
+                "(match_eq_spec; leaf level: bitmask_faithful — invariant holds for the empty leaf, is kept by addRule below 63 rules, "
+                "implies match = filter of admitted rules in rule order, no hang/panic); ProcessEvent executes a duplicate-free sequence "
+                "whose name set is exactly Spec.fires (processEvent_exact); IsTriggering over-approximates Match and depends on the kind "
+                "only, hence the cache is sound after every history and a firing event is never skipped (fired_event_not_skipped); the "
+                "scope trie answers with the flag of the longest defined prefix. Hypotheses: Rule.WF (kind patterns non-empty as produced by "
+                "strings.Split, state keys distinct as in a Go map). Model tied to the real Processor / RuleIndex by exhaustive small "
+                "universes and random large rule sets (up to 200 state rules per kind), workers 1..4; the driver also cross-checks the "
+                "model against the executable Spec on every case."),
     level_note=("Trusted: Lean kernel + propext/Classical.choice/Quot.sound; the correspondence harness; Go's regexp (truth table); "
                 "value equality classes computed by the harness."),
 )
